@@ -159,8 +159,12 @@ def summary_frame(repo, chk):
         forms = [E(f"({c} - {c}.min()) / ({c}.max() - {c}.min())")]
         tgt_ok = Canon(m, sc, inline=True).t(st.targets[0]) == E(c)
         okn = t in forms and tgt_ok
-        chk.expect(okn, 'C18.3b', 'R15', fn.site(st), ast.unparse(st)[:160], 'scores become (s - min)/(max - min) of the aggregated scores: best 1, worst 0, order kept',
-                   f'normalisation must be (s - min)/(max - min) over the aggregated score column; found {show(t)[:200]}')
+        if okn:
+            chk.expect(okn, 'C18.3b', 'R15', fn.site(st), ast.unparse(st)[:160], 'scores become (s - min)/(max - min) of the aggregated scores: best 1, worst 0, order kept',
+                       f'normalisation must be (s - min)/(max - min) over the aggregated score column; found {show(t)[:200]}')
+        else:
+            chk.expect_term(t, forms, 'C18.3b', 'R15', fn.site(st), ast.unparse(st)[:160], 'scores become (s - min)/(max - min) of the aggregated scores: best 1, worst 0, order kept',
+                            f'normalisation must be (s - min)/(max - min) over the aggregated score column; found {show(t)[:200]}')
     else:
         chk.bad('C18.3b', 'R15', fn.site(ni), ast.unparse(ni).replace('\n', ' ')[:160], 'normalisation block does not rewrite the score column exactly once')
     # nothing re-sorts / re-binds after the normalisation
@@ -169,48 +173,142 @@ def summary_frame(repo, chk):
 
 
 def interactions(repo, chk):
+    """handle_interaction_order evaluated path by path (tests forked, effect loops summarised): the aggregated file is written exactly
+    when interaction_order > 1, from one row per constituent holding the median of the scores of every interaction (name containing AND)
+    the constituent takes part in."""
+    from ..match import run_paths
+    from ..terms import pattern, unify, unkind, walk_term
     fn = repo.func(TS, 'handle_interaction_order')
     m = fn.module
     p = fn.params
     df, heur, order = p[0], p[2], p[3]
-    E = lambda s: expected_term(m, s)
-    top = [s for s in fn.node.body if isinstance(s, ast.If)]
-    ok = len(top) == 1 and term_of(fn, top[0].test, inline=False) == E(f'1 < {order}')
-    chk.expect(ok, 'C18.4a', 'R14', fn.site(top[0]) if top else fn.site(), ast.unparse(top[0].test) if top else '', 'aggregated table only for interaction order > 1', 'the aggregated table must be produced exactly when interaction_order > 1')
-    loops = [n for n in own_nodes(fn.node) if isinstance(n, ast.For)]
-    row_loop = next((l for l in loops if 'iterrows' in ast.unparse(l.iter)), None)
-    inner = next((l for l in loops if 'split' in ast.unparse(l.iter)), None)
-    if row_loop is None or inner is None or not isinstance(row_loop.target, ast.Tuple):
-        chk.bad('C18.4b', 'R15', fn.site(), "for el in name.split('-')[0].split(' AND ')", 'per-constituent split of interaction names not found')
+    E = lambda s_, bnd=None: expected_term(m, s_, bnd or {})
+    paths = run_paths(fn, None, None, max_forks=4)
+    if paths is None:
+        chk.unsure('C18.4a', 'R14', fn.site(), 'handle_interaction_order', 'too many undecidable tests')
         return
-    row = row_loop.target.elts[1].id
-    bound = {row: ('role', 'row')}
+    gt_forms, le_forms = [E(f'1 < {order}'), E(f'{order} >= 2')], [E(f'{order} <= 1'), E(f'{order} < 2')]
     col = "f'Score {" + heur + "}'"
-    ER = lambda s: expected_term(m, s, {'row': ('role', 'row')})
-    it = term_of(fn, inner.iter, bound, inline=True)
-    chk.expect(it == ER("row['Feature'].split('-')[0].split(' AND ')"), 'C18.4b', 'R15', fn.site(inner), ast.unparse(inner.iter), "constituents = name part before '-' split on ' AND '", f"constituents must be name.split('-')[0].split(' AND '); found {show(it)[:120]}")
-    aps = [c for c in ast.walk(inner) if isinstance(c, ast.Call) and isinstance(c.func, ast.Attribute) and c.func.attr == 'append']
-    oka = len(aps) == 1 and isinstance(aps[0].func.value, ast.Subscript) and ast.unparse(aps[0].func.value.slice) == inner.target.id and term_of(fn, aps[0].args[0], bound, inline=True) == ER(f"row[{col}]")
-    chk.expect(oka, 'C18.4c', 'R13', fn.site(aps[0]) if aps else fn.site(inner), ast.unparse(aps[0]) if aps else '', 'each constituent collects the score of every interaction it takes part in', 'each constituent must collect the interaction\'s score')
-    gate = [n for n in ast.walk(row_loop) if isinstance(n, ast.If) and any(x is inner for x in ast.walk(n))]
-    okg = len(gate) == 1 and term_of(fn, gate[0].test, bound, inline=True) in (ER("'AND' in row['Feature']"), ER("' AND ' in row['Feature']"))
-    chk.expect(okg, 'C18.4d', 'R14', fn.site(gate[0]) if gate else fn.site(inner), ast.unparse(gate[0].test) if gate else '(no filter)', 'only interaction features contribute', 'only names containing AND may contribute to the aggregated table')
-    meds = [c for c in calls(fn, dotted='numpy.median')]
-    dc = [n for n in own_nodes(fn.node) if isinstance(n, ast.ListComp) and any(x in meds for x in ast.walk(n))]
-    okm = False
-    if len(dc) == 1 and isinstance(dc[0].elt, ast.Dict):
-        g = dc[0].generators[0]
-        if isinstance(g.target, ast.Tuple) and 'items' in ast.unparse(g.iter):
-            k, v = g.target.elts[0].id, g.target.elts[1].id
-            vals = {ast.unparse(key): ast.unparse(val) for key, val in zip(dc[0].elt.keys, dc[0].elt.values)}
-            okm = vals.get("'Feature'") == k and f'np.median({v})' in vals.values() and not g.ifs
-    chk.expect(okm, 'C18.4e', 'R15', fn.site(dc[0]) if dc else fn.site(), ast.unparse(dc[0]).replace('\n', ' ')[:160] if dc else 'np.median per constituent', 'per constituent: median of the collected scores', 'the aggregated table must hold np.median of the collected scores for every constituent')
-    wr = [c for c in calls(fn, attr='to_csv') if 'feature_singles_aggregated.tsv' in ast.unparse(c)]
-    agg = [n for n in own_nodes(fn.node) if isinstance(n, ast.Assign) and isinstance(n.targets[0], ast.Name) and dc and any(x is dc[0] for x in ast.walk(n.value))]
-    chk.expect(len(wr) == 1 and agg and isinstance(wr[0].func.value, ast.Name) and wr[0].func.value.id == agg[0].targets[0].id, 'C18.4g', 'origin', fn.site(wr[0]) if wr else fn.site(), ast.unparse(wr[0]).replace('\n', ' ')[:100] if wr else 'to_csv(feature_singles_aggregated.tsv)',
-               'the aggregated table is written to feature_singles_aggregated.tsv', 'feature_singles_aggregated.tsv must be written from the per-constituent table')
-    it2 = term_of(fn, row_loop.iter, inline=True)
-    chk.expect(it2 == E(f'{df}.iterrows()'), 'C18.4f', 'R13', fn.site(row_loop), ast.unparse(row_loop.iter), 'every row of the summary is visited', 'all rows of the feature summary must be visited')
+    seen_write = seen_skip = False
+    problems = {}
+    oks = set()
+    for assume, res in paths:
+        if res.unknown is not None:
+            chk.unsure('C18.4', 'R15', fn.site(res.unknown), ast.unparse(res.unknown).replace('\n', ' ')[:100], 'a statement outside the vocabulary of effect loops in handle_interaction_order')
+            continue
+        dec = None
+        others = []
+        for t_ast, v in res.assumed:
+            tt = term_of(fn, t_ast, inline=False)
+            if tt in gt_forms:
+                dec = v
+            elif tt in le_forms:
+                dec = not v
+            else:
+                others.append(t_ast)
+        wr = [c for c in res.calls if isinstance(c['call'].func, ast.Attribute) and c['call'].func.attr == 'to_csv' and 'feature_singles_aggregated.tsv' in ast.unparse(c['call'])]
+        if dec is None:
+            if wr or res.updates:
+                problems.setdefault('C18.4a', (fn.node, 'the aggregated table must be produced exactly when interaction_order > 1 (no test of the interaction order on this path)'))
+            continue
+        if not dec:
+            seen_skip = True
+            if wr:
+                problems.setdefault('C18.4a', (wr[0]['node'], 'the aggregated table must be produced exactly when interaction_order > 1'))
+            continue
+        if others:
+            problems.setdefault('C18.4a', (others[0], f'the aggregated table must be produced exactly when interaction_order > 1; an additional test decides: {ast.unparse(others[0])[:60]}'))
+        if not wr:
+            problems.setdefault('C18.4g', (fn.node, 'feature_singles_aggregated.tsv must be written from the per-constituent table'))
+            continue
+        seen_write = True
+        # the collection: for every row, for every constituent of an interaction name: store[constituent].append(score of the row)
+        feeds = [u for u in res.updates if u['kind'] == 'foreach' and u['op'] == 'call' and u['method'] == 'append']
+        store_name = None
+        for u in feeds:
+            chain = u.get('chain', [])
+            if len(chain) != 2:
+                continue
+            row_names, row_it, row_shape = chain[0]
+            row_t = term_of(fn, row_it, inline=False)
+            if row_t != E(f'{df}.iterrows()'):
+                problems.setdefault('C18.4f', (u['node'], 'all rows of the feature summary must be visited', row_t, [E(f'{df}.iterrows()'), E(f'{df}.itertuples()')]))
+                continue
+            oks.add('C18.4f')
+            rowv = row_shape.elts[1].id if isinstance(row_shape, ast.Tuple) and len(row_shape.elts) == 2 and isinstance(row_shape.elts[1], ast.Name) else None
+            if rowv is None:
+                continue
+            B = {rowv: ('role', 'row')}
+            ER = lambda s_: expected_term(m, s_, {'row': ('role', 'row')})
+            el_names, el_it, el_shape = chain[1]
+            it_t = term_of(fn, el_it, B, inline=False)
+            if it_t == ER("row['Feature'].split('-')[0].split(' AND ')"):
+                oks.add('C18.4b')
+            else:
+                problems.setdefault('C18.4b', (u['node'], f"constituents must be name.split('-')[0].split(' AND '); found {show(it_t)[:100]}", it_t, [ER("row['Feature'].split('-')[0].split(' AND ')")]))
+            tgt = u['target']
+            okc = isinstance(tgt, ast.Subscript) and isinstance(tgt.value, ast.Name) and isinstance(el_shape, ast.Name) and ast.unparse(tgt.slice) == el_shape.id \
+                and u['value'] is not None and term_of(fn, u['value'], B, inline=False) == ER(f"row[{col}]")
+            if okc:
+                oks.add('C18.4c')
+                store_name = tgt.value.id
+            else:
+                problems.setdefault('C18.4c', (u['node'], 'each constituent must collect the score of the row it occurs in'))
+            g = term_of(fn, u['guard'], B, inline=False) if u.get('guard') is not None else None
+            if g in (ER("'AND' in row['Feature']"), ER("' AND ' in row['Feature']")):
+                oks.add('C18.4d')
+            else:
+                problems.setdefault('C18.4d', (u['node'], f'only names containing AND may contribute to the aggregated table; guard: {show(g)[:80] if g else "none"}'))
+        if feeds and not any(len(u.get('chain', [])) == 2 for u in feeds):
+            u = feeds[0]
+            chk.unsure('C18.4b', 'R15', fn.site(u['node']), ast.unparse(u['node'])[:100], "the scores are collected, but not by a loop over name.split('-')[0].split(' AND '): how the constituents are obtained is outside the vocabulary of the accepted forms")
+        if not feeds:
+            opaque = [e for e in res.effects if isinstance(e, (ast.For, ast.While))]
+            if opaque:
+                chk.unsure('C18.4b', 'R15', fn.site(opaque[0]), ast.unparse(opaque[0]).replace('\n', ' ')[:100], 'the loop that collects the scores per constituent is outside the vocabulary of effect loops')
+            else:
+                problems.setdefault('C18.4b', (fn.node, 'per-constituent split of interaction names not found'))
+        # the written frame: one row per constituent with the median of its collected scores
+        recv = term_of(fn, wr[0]['call'].func.value, inline=False)
+        okm = False
+        if store_name:
+            for cname in ('K', ):
+                pats = [pattern(m, f"pandas.DataFrame([{{'Feature': kv[0], C: numpy.median(kv[1])}} for kv in {store_name}.items()])", ['C']),
+                        pattern(m, f"pandas.DataFrame([{{'Feature': k, C: numpy.median({store_name}[k])}} for k in {store_name}])", ['C']),
+                        pattern(m, f"pandas.DataFrame({{'Feature': list({store_name}.keys()), C: [numpy.median(v) for v in {store_name}.values()]}})", ['C'])]
+                okm = any(unify(unkind(pt), unkind(recv)) is not None for pt in pats)
+        other_agg = None
+        if store_name and not okm:
+            bb = unify(unkind(pattern(m, f"pandas.DataFrame([{{'Feature': kv[0], C: AGG(kv[1])}} for kv in {store_name}.items()])", ['C', 'AGG'])), unkind(recv))
+            if bb is not None and bb['AGG'] != ('lib', 'numpy.median'):
+                other_agg = bb['AGG']
+        if okm:
+            oks.add('C18.4e')
+            oks.add('C18.4g')
+        elif other_agg is not None:
+            problems.setdefault('C18.4e', (wr[0]['node'], f'the aggregated table must hold np.median of the collected scores for every constituent; it holds {show(other_agg)[:60]}'))
+        elif store_name:
+            vocab_ok = True
+            from ..match import within_vocabulary
+            vocab_ok = within_vocabulary(recv, [pattern(m, f"pandas.DataFrame([{{'Feature': kv[0], 'c': numpy.median(kv[1])}} for kv in {store_name}.items()])")])
+            if vocab_ok:
+                problems.setdefault('C18.4e', (wr[0]['node'], f'the aggregated table must hold np.median of the collected scores for every constituent; found {show(recv)[:160]}'))
+            else:
+                chk.unsure('C18.4e', 'R15', fn.site(wr[0]['node']), show(recv)[:160], 'the frame written to feature_singles_aggregated.tsv is built with operations outside the vocabulary of the accepted forms')
+    if not seen_skip and 'C18.4a' not in problems and seen_write:
+        problems.setdefault('C18.4a', (fn.node, 'the aggregated table must be produced exactly when interaction_order > 1 (it is produced unconditionally)'))
+    good = {'C18.4a': 'aggregated table only for interaction order > 1', 'C18.4b': "constituents = name part before '-' split on ' AND '", 'C18.4c': 'each constituent collects the score of every interaction it takes part in',
+            'C18.4d': 'only interaction features contribute', 'C18.4e': 'per constituent: median of the collected scores', 'C18.4f': 'every row of the summary is visited', 'C18.4g': 'the aggregated table is written to feature_singles_aggregated.tsv'}
+    for oid, why_ok in good.items():
+        if oid in problems:
+            pr = problems[oid]
+            node = pr[0]
+            if len(pr) > 2:
+                chk.expect_term(pr[2], pr[3], oid, 'R15', fn.site(node), ast.unparse(node).replace('\n', ' ')[:100], '', pr[1])
+            else:
+                chk.bad(oid, 'R15' if oid not in ('C18.4a', 'C18.4d') else 'R14', fn.site(node) if not isinstance(node, ast.FunctionDef) else fn.site(), ast.unparse(node).replace('\n', ' ')[:100] if not isinstance(node, ast.FunctionDef) else 'handle_interaction_order', pr[1])
+        elif oid in oks or (oid == 'C18.4a' and seen_write and seen_skip):
+            chk.ok(oid, 'R15', fn.site(), 'handle_interaction_order', why_ok)
 
 
 def wiring(repo, chk):
